@@ -16,6 +16,7 @@ pub mod c12;
 pub mod c13;
 pub mod c14;
 pub mod c15;
+pub mod c16;
 pub mod c20;
 
 use crate::run::Prop;
@@ -39,6 +40,7 @@ pub fn by_id(id: &str) -> Option<&'static dyn Prop> {
         "C13" => &c13::C13,
         "C14" => &c14::C14,
         "C15" => &c15::C15,
+        "C16" => &c16::C16,
         "C20" => &c20::C20,
         _ => return None,
     })
